@@ -843,13 +843,19 @@ def check(rep):
         if c['part'] == 'L':
             return 50
         return 400
-    shards = [[] for _ in range(nshards)]
-    loads = [0] * nshards
-    for i in sorted(range(len(cases)), key=lambda i: -weight(cases[i])):
-        k = loads.index(min(loads))
-        shards[k].append(i)
-        loads[k] += weight(cases[i])
-    shards = sorted((sorted(s) for s in shards if s), key=lambda s: s[0])
+    # contiguous, weight-balanced shards: merge order = case order, so the first example kept for a
+    # violation kind is the simplest one
+    total = sum(weight(cases[i]) for i in range(len(cases)))
+    target = max(1, total // nshards)
+    shards, cur, acc = [], [], 0
+    for i in range(len(cases)):
+        cur.append(i)
+        acc += weight(cases[i])
+        if acc >= target:
+            shards.append(cur)
+            cur, acc = [], 0
+    if cur:
+        shards.append(cur)
     if rep.seed:
         r = rep.seed % len(shards)
         shards = shards[r:] + shards[:r]
